@@ -507,6 +507,24 @@ pub fn gen(rng: &mut Rng, tier: Tier, out: &mut Vec<String>) {
                 for _ in 0..cells { s.push_str(match c % 3 { 0 => " 0", 1 => " 1", _ => " -1" }); c /= 3; }
                 out.push(format!("solve q {} {}", s, gen_vec_str::<Q>(rng, n, 10, 0))); } }
     }
+
+    // LARGER ORDERS (11 .. 48): every size class a blocked / unrolled / buffered row operation would treat differently
+    for _ in 0..(if tier == Tier::Quick { 14 } else { 300 }) {
+        let n = big(rng, 48);
+        let mut p: Vec<usize> = (0..n).collect(); for i in (1..n).rev() { let j = rng.below(i + 1); p.swap(i, j); }
+        // f64 / complex: dense, with a dominant entry in position (i, p(i)): nonsingular, well conditioned, exchanges at most steps
+        let a: Vec<Vec<f64>> = (0..n).map(|i| (0..n).map(|j| rng.f_general(1.0) * 0.25 + if p[i] == j { (n as f64) * if rng.chance(50) { 1.0 } else { -1.0 } } else { 0.0 }).collect()).collect();
+        out.push(format!("solve_ns f {} {}", rows_str(&a, n, n), gen_vec_str::<f64>(rng, n, 0, 1)));
+        if n <= 33 { let ac: Vec<Vec<Cmplx>> = a.iter().enumerate().map(|(i, r)| r.iter().enumerate().map(|(j, x)| if p[i] == j { Cmplx::new(0.0, *x) } else { Cmplx::new(*x, rng.f_general(1.0) * 0.25) }).collect()).collect();
+            out.push(format!("solve_ns c {} {}", rows_str(&ac, n, n), gen_vec_str::<Cmplx>(rng, n, 0, 1))); }
+        // exact: a row permutation of a lower bidiagonal matrix with diagonal +-1 (no fill-in, every number stays a small integer)
+        let aq: Vec<Vec<Q>> = (0..n).map(|i| { let r = p[i]; (0..n).map(|j| if j == r { Q::int(if (r + j) % 3 == 0 { -1 } else { 1 }) } else if j + 1 == r { Q::int(rng.range(-2, 2) as i128) } else { Q::int(0) }).collect() }).collect();
+        let bq: Vec<Q> = (0..n).map(|_| Q::int(rng.range(-3, 3) as i128)).collect();
+        out.push(format!("solve q {} {}", rows_str(&aq, n, n), wr_vec(&bq)));
+        // exact: scaled permutation matrix
+        let aq: Vec<Vec<Q>> = (0..n).map(|i| (0..n).map(|j| if p[i] == j { Q::gen(rng, 0, 0) } else { Q::int(0) }).collect()).collect();
+        out.push(format!("solve q {} {}", rows_str(&aq, n, n), gen_vec_str::<Q>(rng, n, 10, 0)));
+    }
 }
 
 pub fn gen_c02(rng: &mut Rng, tier: Tier, out: &mut Vec<String>) {
@@ -536,6 +554,20 @@ pub fn gen_c02(rng: &mut Rng, tier: Tier, out: &mut Vec<String>) {
             for code in 0..total { let mut c = code; let mut s = format!("{} {}", n, n);
                 for _ in 0..cells { s.push_str(match c % 3 { 0 => " 0", 1 => " 1", _ => " -1" }); c /= 3; }
                 out.push(format!("detinv q {}", s)); } }
+    }
+
+    // LARGER ORDERS: row permutations of upper-band triangular matrices with diagonal +-2 and a few entries in {-1, 0, 1}
+    // above it (the exact determinant +-2^n and the exact inverse stay within the harness rationals)
+    for _ in 0..(if tier == Tier::Quick { 10 } else { 200 }) {
+        let n = big(rng, 33);
+        let mut p: Vec<usize> = (0..n).collect(); for i in (1..n).rev() { let j = rng.below(i + 1); p.swap(i, j); }
+        let u: Vec<Vec<i64>> = (0..n).map(|r| (0..n).map(|j| if j == r { if rng.chance(50) { 2 } else { -2 } } else if j > r && j <= r + 3 && rng.chance(40) { rng.range(-1, 1) } else { 0 }).collect()).collect();
+        let af: Vec<Vec<f64>> = (0..n).map(|i| u[p[i]].iter().map(|x| *x as f64).collect()).collect();
+        out.push(format!("detinv f {}", rows_str(&af, n, n)));
+        let aq: Vec<Vec<Q>> = (0..n).map(|i| u[p[i]].iter().map(|x| Q::int(*x as i128)).collect()).collect();
+        out.push(format!("detinv q {}", rows_str(&aq, n, n)));
+        if n <= 25 { let ac: Vec<Vec<Cmplx>> = (0..n).map(|i| u[p[i]].iter().enumerate().map(|(j, x)| Cmplx::new(*x as f64, if j == p[i] { 1.0 } else { 0.0 })).collect()).collect();
+            out.push(format!("detinv c {}", rows_str(&ac, n, n))); }
     }
 }
 
